@@ -393,7 +393,7 @@ func runC11(c *Ctx) {
 			}
 		}
 	}
-	c.floor("L3-CALLER", 8)
+	c.floor("L3-CALLER", 3)
 	c.eexecNesting(ia)
 
 	// ---------------- L4: operand stack gate dominates dispatch
@@ -776,130 +776,124 @@ func stripConv(v ssa.Value) ssa.Value {
 
 // startCheck: rule L7.
 func (c *Ctx) startCheck(ia *interpAnchors) {
+	// executeScanner is evaluated on the SSA form for the cells (CheckStart set?, first two
+	// bytes, pending read error): does it reach the token loop, what does it return, is the flag
+	// cleared.  A helper that performs the comparison is evaluated in place.
 	f := ia.execScanner
 	fnName := c.fname(f)
 	sT := c.typeObj("postscript", "scanner")
-	scanTok := c.method("postscript", "scanner", "ScanToken")
-	var loopBlk *ssa.BasicBlock
-	for _, call := range staticCalls(f, scanTok) {
-		loopBlk = call.Block()
+	errF := c.fld("scanner.err")
+	type outcome struct {
+		loop    bool
+		ret     string
+		cleared bool
+		peeked  int64
+		why     string
 	}
-	if loopBlk == nil {
-		c.fail("L7-START", fnName, "token loop", f.Pos(), "the ScanToken loop was not found in executeScanner")
-		return
-	}
-	// the comparison with "%!"
-	var cmpBlk *ssa.BasicBlock
-	var passEdge int
-	for _, b := range f.Blocks {
-		ifi, ok := b.Instrs[len(b.Instrs)-1].(*ssa.If)
-		if !ok {
-			continue
+	run := func(check bool, head string, pending string) outcome {
+		var o outcome
+		o.peeked = -1
+		ev := &ssaEval{c: c, bind: map[ssa.Value]sv{}, mem: map[string]sv{}}
+		ev.noInline = func(g *ssa.Function) bool {
+			return g.Signature.Recv() != nil && pointsTo(g.Signature.Recv().Type(), sT) || g == ia.executeOne
 		}
-		m, ok := asCmp(cond{ifi.Cond, true, b})
-		if !ok || (m.op != token.NEQ && m.op != token.EQL) {
-			continue
-		}
-		s1, ok1 := constString(m.y)
-		if !ok1 {
-			s1, ok1 = constString(m.x)
-		}
-		if ok1 && s1 == "%!" {
-			cmpBlk = b
-			if m.op == token.NEQ {
-				passEdge = 1
-			} else {
-				passEdge = 0
+		ev.load = func(ld *ssa.UnOp, addr sv) (sv, bool) {
+			a := addr.s
+			switch {
+			case strings.HasSuffix(a, ".CheckStart"):
+				return boolV(check), true
+			case strings.HasSuffix(a, "."+errF):
+				switch pending {
+				case "nil":
+					return sv{k: svNil}, true
+				case "EOF":
+					return symV("EOF"), true
+				}
+				return symV("readError"), true
+			case strings.HasPrefix(a, "global:"):
+				return symV(a[strings.LastIndex(a, ".")+1:]), true
 			}
+			return symV("v:" + a), true
 		}
-	}
-	if cmpBlk == nil {
-		c.fail("L7-START", fnName, "comparison with \"%!\"", f.Pos(), "executeScanner no longer compares the first two bytes with \"%!\"")
-		return
-	}
-	// compared value: string(PeekN(2))
-	peekN := c.method("postscript", "scanner", "PeekN")
-	okPeek := false
-	for _, call := range staticCalls(f, peekN) {
-		if k, isC := constInt(call.Common().Args[1]); isC && k == 2 && dominatesInstr(call, cmpBlk.Instrs[len(cmpBlk.Instrs)-1]) {
-			okPeek = true
-		}
-	}
-	c.check(okPeek, "L7-START", fnName, "two bytes peeked", cmpBlk.Instrs[0].Pos(), "PeekN(2) dominates the comparison", "the start check does not look at exactly the first two bytes (PeekN(2))")
-
-	// entry If on CheckStart
-	entry := f.Blocks[0]
-	var checkIf *ssa.If
-	for _, b := range f.Blocks {
-		if ifi, ok := b.Instrs[len(b.Instrs)-1].(*ssa.If); ok && isFieldLoad(ifi.Cond, ia.T, "CheckStart") {
-			if b == entry || b.Dominates(loopBlk) {
-				checkIf = ifi
-			}
-		}
-	}
-	if checkIf == nil {
-		c.fail("L7-START", fnName, "test of CheckStart", f.Pos(), "executeScanner does not test Interpreter.CheckStart before the token loop")
-		return
-	}
-	// with CheckStart true, no path reaches the loop except through the pass edge of the comparison
-	passBlk := cmpBlk.Succs[passEdge]
-	failBlk := cmpBlk.Succs[1-passEdge]
-	q := &pathQuery{fn: f, isTarget: func(b *ssa.BasicBlock) bool { return b == loopBlk },
-		avoid: func(b *ssa.BasicBlock) bool { return b == passBlk || b == checkIf.Block().Succs[1] }}
-	if q.search() {
-		c.fail("L7-START", fnName, "token loop only after the check passed", loopBlk.Instrs[0].Pos(), "with CheckStart set, the token loop can be reached without passing the \"%!\" comparison (block path "+pathString(q.witness)+")")
-	} else {
-		c.ok("L7-START", fnName, "token loop only after the check passed", loopBlk.Instrs[0].Pos(), "no path from the CheckStart branch to the loop avoids the pass edge", "")
-	}
-	// pass path clears the flag before the loop
-	cleared := false
-	eachInstr(f, func(ins ssa.Instruction) {
-		if st, ok := ins.(*ssa.Store); ok && isFieldAddr(st.Addr, ia.T, "CheckStart") {
-			if b, isC := constBool(st.Val); isC && !b && (st.Block() == passBlk || passBlk.Dominates(st.Block())) && st.Block().Dominates(loopBlk) == false {
-				cleared = true
-			}
-			if b, isC := constBool(st.Val); isC && !b && st.Block() == passBlk {
-				cleared = true
-			}
-		}
-	})
-	c.check(cleared, "L7-START", fnName, "flag cleared once the check passed", passBlk.Instrs[0].Pos(), "CheckStart = false on the pass edge", "CheckStart is not cleared after the check passed: the check would be repeated on later Execute calls")
-	// failure exits: ErrNoPostScript, or a pending non-EOF read error
-	noPS := c.spkg("postscript").Var("ErrNoPostScript")
-	okFail := true
-	why := ""
-	seenRet := 0
-	var walk func(b *ssa.BasicBlock, depth int)
-	visited := map[*ssa.BasicBlock]bool{}
-	walk = func(b *ssa.BasicBlock, depth int) {
-		if visited[b] || depth > 10 {
-			return
-		}
-		visited[b] = true
-		if b == loopBlk {
-			okFail = false
-			why = "the failure edge of the comparison flows into the token loop"
-			return
-		}
-		if r, ok := b.Instrs[len(b.Instrs)-1].(*ssa.Return); ok {
-			seenRet++
-			for _, v := range retValues(r, 0) {
-				if !c.startFailValue(v, noPS, sT, map[ssa.Value]bool{}) {
-					okFail = false
-					why = "a failure exit at " + c.pos(r.Pos()) + " returns something other than ErrNoPostScript or the scanner's pending read error"
+		ev.oracle = func(op token.Token, x, y sv) (bool, bool) {
+			if (x.k == svSym || x.k == svNil) && (y.k == svSym || y.k == svNil) {
+				eq := x.String() == y.String()
+				switch op {
+				case token.EQL:
+					return eq, true
+				case token.NEQ:
+					return !eq, true
 				}
 			}
-			return
+			return false, false
 		}
-		for _, s := range b.Succs {
-			walk(s, depth+1)
+		ev.call = func(call ssa.CallInstruction, args []sv) (sv, bool) {
+			if call == nil {
+				return sv{}, false
+			}
+			sc := call.Common().StaticCallee()
+			if sc == nil {
+				return sv{}, false
+			}
+			if sc.Signature.Recv() != nil && pointsTo(sc.Signature.Recv().Type(), sT) {
+				res := sc.Signature.Results()
+				par := sc.Signature.Params()
+				switch {
+				case res.Len() == 1 && par.Len() == 1 && res.At(0).Type().String() == "[]byte":
+					// the look-ahead
+					if len(args) == 2 && args[1].k == svInt {
+						o.peeked = args[1].i
+					}
+					return sv{k: svString, s: head}, true
+				case res.Len() == 2 && par.Len() == 0 && strings.HasSuffix(res.At(0).Type().String(), "Object"):
+					// the token loop
+					o.loop = true
+					return sv{k: svTuple, tup: []sv{{k: svNil}, symV("EOF")}}, true
+				}
+				return sv{}, true
+			}
+			return sv{}, false
+		}
+		ret := ev.runFunc(f, []sv{{k: svAddr, s: "intp"}, {k: svAddr, s: "s"}})
+		o.why = ev.why
+		if len(ret) == 1 {
+			o.ret = ret[0].String()
+		}
+		for _, ef := range ev.effects {
+			if ef.what == "store" && strings.HasSuffix(ef.addr, ".CheckStart") && ef.args[0].k == svBool && !ef.args[0].b {
+				o.cleared = true
+			}
+		}
+		return o
+	}
+	var bad []string
+	note := func(format string, a ...any) { bad = append(bad, fmt.Sprintf(format, a...)) }
+	// without the check the loop runs whatever the input is
+	for _, head := range []string{"%!", "ab", ""} {
+		if o := run(false, head, "nil"); !o.loop || o.ret != "nil" {
+			note("with CheckStart unset and input %q the token loop is reached: %v, result %s %s", head, o.loop, o.ret, o.why)
 		}
 	}
-	walk(failBlk, 0)
-	c.check(okFail && seenRet > 0, "L7-START", fnName, "failure exit returns ErrNoPostScript (or a pending non-EOF read error)", failBlk.Instrs[0].Pos(), fmt.Sprintf("%d failure returns checked", seenRet), "start check failure: "+why)
+	o := run(true, "%!", "nil")
+	if !o.loop || !o.cleared || o.ret != "nil" {
+		note("with CheckStart set and input %%! the token loop is reached: %v, the flag is cleared: %v, result %s %s", o.loop, o.cleared, o.ret, o.why)
+	}
+	c.check(o.peeked == 2, "L7-START", fnName, "two bytes peeked", f.Pos(), "look-ahead of 2 bytes", fmt.Sprintf("the start check looks at %d bytes, not exactly the first two", o.peeked))
+	for _, head := range []string{"ab", "%?", "?!", "%", "", "!%"} {
+		for _, pending := range []string{"nil", "EOF", "other"} {
+			o := run(true, head, pending)
+			want := "ErrNoPostScript"
+			if pending == "other" {
+				want = "readError"
+			}
+			if o.loop || o.ret != want || o.cleared {
+				note("with CheckStart set, input %q and pending read error %s: token loop reached %v, result %s (expected %s), flag cleared %v %s", head, pending, o.loop, o.ret, want, o.cleared, o.why)
+			}
+		}
+	}
+	c.check(len(bad) == 0, "L7-START", fnName, "under CheckStart the token loop runs only after the first two bytes were %!; otherwise ErrNoPostScript (or the pending non-EOF read error); the flag is cleared once the check passed", f.Pos(), "22 cells evaluated", "start check: "+joinMax(bad, 3))
 }
 
-// startFailValue: v is ErrNoPostScript, or scanner.err (possibly through a phi of both).
 func (c *Ctx) startFailValue(v ssa.Value, noPS *ssa.Global, sT *types.TypeName, seen map[ssa.Value]bool) bool {
 	if seen[v] {
 		return true
